@@ -35,12 +35,33 @@ Theorem strop_sound_any_config_partial : forall (cfg : strop_cfg), chk_sound py_
 Proof. exact (strop_sound_gen py_uni py_isspace). Qed.
 Print Assumptions strop_sound_any_config_partial.
 
-(* witness: the C configuration with reserved_identifiers overridden to [a; _a] returns the reserved `_a` for `a`
-   (the failure handler's result is not re-verified) -- known finding F-STROP-HANDLER-UNVERIFIED *)
+(* a tree whose strop re-verifies the token it returns (sc_reverify, recognised by T1 with ast) needs NO condition on the
+   handlers: for every configuration with the validity conditions chk_base the full statement holds *)
+Theorem strop_sound_any_config : forall (cfg : strop_cfg), sc_reverify cfg = true -> chk_base py_uni cfg = true ->
+  forall (ty s t : str), s <> [] -> strop py_uni py_isspace cfg ty s = Ok t ->
+  valid_ident t = true /\ is_reserved cfg t = false /\ matches_reserved_pattern py_uni cfg ty t = false.
+Proof. exact strop_sound_reverify_gen. Qed.
+Print Assumptions strop_sound_any_config.
+
+(* quirk model (sc_reverify := false, the tree without the fix): the C configuration with reserved_identifiers overridden to
+   [a; _a] returns the reserved `_a` for `a` -- known finding F-STROP-HANDLER-UNVERIFIED *)
 Theorem strop_sound_override_refuted :
   exists ty s t, s <> [] /\ strop py_uni py_isspace cfg_c_override ty s = Ok t /\ is_reserved cfg_c_override t = true.
 Proof. exact strop_sound_override_refuted_thm. Qed.
 Print Assumptions strop_sound_override_refuted.
+
+(* which of the two is live for /repo as it is NOW (decided by the regenerated flag strop_reverifies): with the fix all three
+   languages re-verify, the witness override is sound and `a` is rejected; without it the witness override returns `_a` *)
+Theorem strop_override_state : override_state.
+Proof. exact override_state_thm. Qed.
+Print Assumptions strop_override_state.
+
+(* Python's reserved list contains keyword.kwlist + dir(builtins) of the interpreter that runs nunavut (a table the translator
+   takes from the interpreter itself, not from nunavut.lang.py) *)
+Theorem py_reserved_covers_interpreter :
+  forall w, In w (py_kwlist ++ py_interpreter_reserved) -> reserved_lang LPy w = true.
+Proof. exact py_reserved_covers_interpreter_thm. Qed.
+Print Assumptions py_reserved_covers_interpreter.
 
 (* ---- identity: a valid identifier that is not reserved and matches no reserved pattern is returned unchanged ---- *)
 (* clean_lang l ty t = valid_ident t && not reserved && matches no reserved pattern of `all`/ty *)
@@ -103,3 +124,6 @@ Example nv_clean_py : clean_lang LPy ty_any [113; 122; 95; 55] = true.
 Proof. vm_compute; reflexivity. Qed.
 Example nv_cache_ok : cache_ok LC [].
 Proof. intros tok ty v H; discriminate. Qed.
+(* "__debug__" is in the interpreter table, hence reserved, hence stropped for py *)
+Example nv_py_dunder_builtin : strop_py ty_any [95; 95; 100; 101; 98; 117; 103; 95; 95] = Ok [95; 95; 100; 101; 98; 117; 103; 95; 95; 95].
+Proof. vm_compute; reflexivity. Qed.
